@@ -8,12 +8,14 @@ import (
 	"crypto/x509"
 	"crypto/x509/pkix"
 	"encoding/base64"
+	"errors"
 	"math/big"
 	"net"
 	"strings"
 	"time"
 
 	"github.com/hashicorp/nodeenrollment"
+	"github.com/hashicorp/nodeenrollment/registration"
 	nodetls "github.com/hashicorp/nodeenrollment/tls"
 	"github.com/hashicorp/nodeenrollment/types"
 	"github.com/hashicorp/nodeenrollment/zzverif/vf"
@@ -199,5 +201,105 @@ func VerifC07OwnServer() {
 		}
 	}
 	vf.Assert("node-connects-through-the-chain-the-server-still-recognizes", connected)
+	vf.Reach("end")
+}
+
+func init() { VfHarnesses["VerifC07Pending"] = VerifC07Pending }
+
+// vfLiveServerPeer connects a client-side handshake to the library's own server side. Under the engine the peer
+// answers through Respond, which runs the listener's real TLS callback and certificate selection on the client's
+// ALPN list; natively the client end of a loopback connection is returned and the real listener accepts the other.
+func vfLiveServerPeer(l *InterceptingListener, script *vfs.Script) *vfServerPeerLive {
+	peer := &vfServerPeerLive{HoldsLeafKey: true, RequestsClientCert: true}
+	if vf.Native() {
+		server, client := vf.ConnPair()
+		script.Conns, script.Errs = append(script.Conns, server), append(script.Errs, nil)
+		go func() { _, _ = l.Accept() }()
+		peer.Conn = client
+		return peer
+	}
+	peer.Respond = func(protos []string) (string, [][]byte, bool) {
+		var ci ClientInfo
+		hello := &tls.ClientHelloInfo{SupportedProtos: protos}
+		cfg, err := l.getTlsConfigForClient(&ci)(hello)
+		if err != nil || cfg == nil || cfg.GetCertificate == nil || len(cfg.NextProtos) == 0 {
+			return "", nil, false
+		}
+		cert, err := cfg.GetCertificate(hello)
+		if err != nil || cert == nil {
+			return "", nil, false
+		}
+		return cfg.NextProtos[0], cert.Certificate, true
+	}
+	return peer
+}
+
+type vfServerPeerLive struct {
+	net.Conn
+	Proto              string
+	Chain              [][]byte
+	HoldsLeafKey       bool
+	RequestsClientCert bool
+	AcceptableCAs      [][]byte
+	Respond            func(protos []string) (string, [][]byte, bool)
+}
+
+// C07 (pending authorization): a node that is not authorized yet gets the not-authorized error from its fetch
+// attempt and stores no certificates; once the operator has authorized the very same stored key, the next attempt
+// returns credentials that the node accepts and stores. Client side (attemptFetch, HandleFetchNodeCredentialsResponse)
+// and server side (the listener's TLS callback, FetchNodeCredentials, GenerateServerCertificates, ServerConfig) are
+// both the library's code.
+func VerifC07Pending() {
+	ctx := context.Background()
+	t0 := vf.Now()
+	vf.ShortScenario(t0, 2*time.Second)
+	st, nodeSt := &vfs.Storage{}, &vfs.Storage{}
+	vfs.StoreRoots(ctx, st, t0)
+	script := &vfs.Script{}
+	l, err := NewInterceptingListener(&InterceptingListenerConfiguration{Context: ctx, Storage: st, BaseListener: script})
+	if err != nil {
+		panic(err)
+	}
+	creds, err := types.NewNodeCredentials(ctx, nodeSt)
+	if err != nil {
+		panic(err)
+	}
+	authorizedFirst := vf.Bool("operator-authorized-before-the-first-attempt")
+	authorize := func() {
+		req, err := creds.CreateFetchNodeCredentialsRequest(ctx)
+		if err != nil {
+			panic(err)
+		}
+		if _, err := registration.AuthorizeNode(ctx, st, req); err != nil {
+			panic(err)
+		}
+	}
+	if authorizedFirst {
+		authorize()
+	}
+	before := nodeSt.Get(vfs.KindCreds, string(nodeenrollment.CurrentId))
+	resp, err := attemptFetch(ctx, vfLiveServerPeer(l, script), creds)
+	if !authorizedFirst {
+		vf.Reach("pending")
+		vf.Assert("unauthorized-node-gets-the-not-authorized-error", errors.Is(err, nodeenrollment.ErrNotAuthorized))
+		vf.Assert("no-response-while-pending", resp == nil)
+		vf.Assert("nothing-stored-while-pending", vf.And(len(creds.CertificateBundles) == 0, vf.EqBytes(nodeSt.Get(vfs.KindCreds, string(nodeenrollment.CurrentId)), before)))
+		vf.Assert("no-record-created-by-the-attempt", st.Count(vfs.KindNode) == 0)
+		authorize() // the operator authorizes the same key
+		resp, err = attemptFetch(ctx, vfLiveServerPeer(l, script), creds)
+	}
+	vf.Assert("authorized-node-fetches-its-credentials", vf.And(err == nil, resp != nil))
+	if err != nil || resp == nil {
+		return
+	}
+	_, herr := creds.HandleFetchNodeCredentialsResponse(ctx, nodeSt, resp)
+	vf.Assert("node-accepts-the-response", herr == nil)
+	if herr == nil {
+		loaded, lerr := types.LoadNodeCredentials(ctx, nodeSt, nodeenrollment.CurrentId)
+		vf.Assert("credentials-stored-with-both-chains", vf.And(lerr == nil, len(creds.CertificateBundles) == 2))
+		if lerr == nil {
+			vf.Assert("same-key-as-before-authorization", vf.EqBytes(loaded.CertificatePublicKeyPkix, creds.CertificatePublicKeyPkix))
+		}
+	}
 	vf.Reach("end")
 }
